@@ -1,6 +1,10 @@
 """C16 -- decoding arbitrary bytes as MIDI fails only with MIDIConversionError
 (contract level: the byte parser is a nondeterministic stub)."""
+import os
+import tempfile
 import types
+
+from props import common as K
 
 META = {
     'level': 'other',
@@ -26,11 +30,17 @@ META = {
         'validators. Anything that needs real bytes (truncations, running '
         'status, the MAX_TICK = 1e10 allocation hazard) is outside the claim.',
     'explanation':
-        'Stub-contract level: exception-type closure and result '
-        'well-formedness of note_seq.midi_io.midi_to_note_sequence for every '
-        'constructor outcome allowed by contract K; the byte parser itself is '
-        'not analysed.',
-    'functions': [('midi_io', 'midi_to_note_sequence')],
+        'Stub-contract level: exception-type closure, result '
+        'well-formedness and event-by-event conversion (counts, field '
+        'values, header, total_time, instrument names) of '
+        'note_seq.midi_io.midi_to_note_sequence, its file variant and the '
+        'two renamed aliases, for every constructor outcome allowed by '
+        'contract K and for a populated PrettyMIDI object handed over '
+        'directly; the byte parser itself is not analysed.',
+    'functions': [('midi_io', 'midi_to_note_sequence'),
+                  ('midi_io', 'midi_file_to_note_sequence'),
+                  ('midi_io', 'midi_to_sequence_proto'),
+                  ('midi_io', 'midi_file_to_sequence_proto')],
     'assumptions': [
         'contract K for PrettyMIDI(<bytes>): raises any exception object OR '
         'returns an object with resolution in [-32768,32767] minus 0 (negative '
@@ -41,19 +51,38 @@ META = {
         'times >= 0; instruments with program in [0,127], notes with pitch and '
         'velocity in [0,127] and 0 <= start <= end; bends in [-8192,8191]; '
         'control number/value in [0,127]; all times >= 0',
-        'shape of the returned object: 1 time signature, 1 key signature, 2 '
-        'tempos, 1-2 instruments with 2 notes, 1 bend and 1 control change '
-        'each',
+        'shape of the returned object: 0-2 time signatures, 0-2 key '
+        'signatures, 1-3 tempos, 0-2 instruments with 0-3 notes, 1 bend and 1 '
+        'control change each (the jobs list has the combinations)',
         'contract K also says: tempo-change ticks of a parsed file are below '
         'the MAX_TICK midi_io configures (1e10), and get_tempo_changes raises '
         'IndexError for a tick at or above the MAX_TICK in force when it is '
         'CALLED (pretty_midi.tick_to_time)',
+        'a PrettyMIDI object passed directly (via=object) obeys the same '
+        'ranges except that resolution may be 0 (get_tempo_changes then '
+        'raises ZeroDivisionError, as pretty_midi does) and, in the badkey '
+        'job, key_number is outside [0,23] (documented: MIDIConversionError)',
+        'file variants are called with the path of a readable temporary file '
+        'holding the bytes; a text string is only required not to leak '
+        'another exception type (h_text)',
+        'oracle for values: pretty_midi key numbers 0..11 major / 12..23 '
+        'minor with tonic = number % 12; total_time = latest note end (0 '
+        'without notes); an instrument_info for every non-empty track name; '
+        'storage order of the converted events is not prescribed',
     ],
-    'bounds': {'quick': 'denominator exponents {0,1,2,3,7,8,30,31,32,63,64,255}, '
-                        'key numbers {0,11,12,23}; everything else symbolic',
+    'bounds': {'quick': 'main job: denominator exponents {0,1,2,3,7,8,30,31,'
+                        '32,63,64,255}, key numbers {0,11,12,23}, names from 4 '
+                        'strings, bytes/bytearray/memoryview; slim jobs: '
+                        'exponents {2,30,31,64}, keys {11,12}, 2 names, bytes; '
+                        'all 24 keys and all 256 exponents on small files; '
+                        '14 parser exception kinds x 4 entry points; second '
+                        'call after a failed one; everything else symbolic',
                'thorough': 'all exponents 0..255 and key numbers 0..23; 2 '
                            'instruments'},
-    'outside': ['everything that depends on the actual bytes'],
+    'outside': ['everything that depends on the actual bytes',
+                'missing / unreadable paths given to the file variants',
+                'text of the MIDIConversionError message',
+                'callers in melodies_lib / drums_lib'],
 }
 
 
@@ -78,12 +107,25 @@ _EXCS = {
     'MemoryError': MemoryError(),
     'custom': _OddError('odd'),
     'base': _NotAnException(),
+    # a message that is not plain ASCII text, and the codec error a text meta
+    # event produces
+    'nonascii': ValueError('d\xe9j\xe0 ♫'),
+    'unicode': UnicodeDecodeError('utf-8', b'\xff', 0, 1, 'invalid start byte'),
 }
+
+# not text: bytes >= 0x80, NUL, and a CR LF that a text-mode read would alter
+_RAW = (b'MThd\x00\x00\x00\x06\x00\x01\x00\x01\x01\xe0-not-\r\n-really'
+        b'\xff\x2f\x00')
+
+# the decoder under its four public names (the *_sequence_proto ones are the
+# documented "renamed to" aliases); the file variants get a path
+_ENTRIES = ['midi_to_note_sequence', 'midi_to_sequence_proto',
+            'midi_file_to_note_sequence', 'midi_file_to_sequence_proto']
 
 
 def _install(c, mio, plan):
-  """Makes PrettyMIDI(<file>) inside midi_io behave according to `plan`;
-  returns a restore function."""
+  """Makes PrettyMIDI(<file>) inside midi_io behave according to `plan(self,
+  file)`; returns a restore function."""
   if c.mode == 'sym':
     from engine import pmlite  # pylint: disable=g-import-not-at-top
     from engine import symproto  # pylint: disable=g-import-not-at-top
@@ -92,7 +134,7 @@ def _install(c, mio, plan):
     symproto.STRICT_INT_RANGE[0] = True
 
     def from_file(self, f):
-      plan(self)
+      plan(self, f)
 
     pmlite.FROM_FILE[0] = from_file
 
@@ -110,7 +152,7 @@ def _install(c, mio, plan):
         real.PrettyMIDI.__init__(self, **kw)
         return
       real.PrettyMIDI.__init__(self)
-      plan(self)
+      plan(self, midi_file)
 
   ns = types.SimpleNamespace(**{k: getattr(real, k) for k in dir(real)
                                 if not k.startswith('__')})
@@ -123,85 +165,185 @@ def _install(c, mio, plan):
   return restore
 
 
-def _data(c):
+def _data(c, slim=False):
   """The byte string in one of the standard containers of bytes."""
-  raw = b'MThd-not-really'
+  raw = _RAW
+  if slim:
+    return raw
   return c.choice('container', [raw, bytearray(raw), memoryview(raw)])
+
+
+def _drain(f):
+  """What the parser can read from the thing it was handed."""
+  if hasattr(f, 'read'):
+    return f.read()
+  return f
+
+
+def _call(mio, entry, data):
+  """Calls the decoder by the public name `entry`; the file variants receive
+  the bytes through a file on disk."""
+  fn = getattr(mio, entry)
+  if 'file' not in entry:
+    return fn(data)
+  fd, path = tempfile.mkstemp(suffix='.mid')
+  try:
+    os.write(fd, bytes(data))
+    os.close(fd)
+    return fn(path)
+  finally:
+    os.unlink(path)
+
+
+def _guarded(c, mio, entry, data):
+  """(result, exception) of one decoder call; engine signals pass through."""
+  try:
+    return _call(mio, entry, data), None
+  except BaseException as e:  # pylint: disable=broad-except
+    if type(e).__module__.startswith('engine'):
+      raise
+    return None, e
 
 
 def h_raises(c):
   mio = c.mod('midi_io')
   exc = _EXCS[c.params['exc']]
+  seen = []
 
-  def plan(self):
+  def plan(self, f):
+    seen.append(_drain(f))
     raise exc
 
+  entry = c.choice('entry', _ENTRIES)
+  data = _data(c)
   restore = _install(c, mio, plan)
   try:
-    try:
-      res, err = mio.midi_to_note_sequence(_data(c)), None
-    except BaseException as e:  # pylint: disable=broad-except
-      if type(e).__module__.startswith('engine'):
-        raise
-      res, err = None, e
+    res, err = _guarded(c, mio, entry, data)
   finally:
     restore()
   c.check(err is not None and isinstance(err, mio.MIDIConversionError),
           'a failing parser surfaces as MIDIConversionError and nothing else')
+  c.check(len(seen) == 1 and bytes(seen[0]) == _RAW,
+          'the parser is handed the complete file contents')
+
+
+def h_text(c):
+  """`midi_data: A string containing the contents of a MIDI file`: a text
+  string (what "a string" is today) must not make anything but the documented
+  exception escape, whether or not it is accepted."""
+  mio = c.mod('midi_io')
+
+  def plan(self, f):
+    self.resolution = 220
+    self.time_signature_changes = []
+    self.key_signature_changes = []
+    self.instruments = []
+    self.get_tempo_changes = lambda: ([0], [120.0])
+
+  entry = c.choice('entry', _ENTRIES[:2])
+  restore = _install(c, mio, plan)
+  try:
+    res, err = _guarded(c, mio, entry, _RAW.decode('latin-1'))
+  finally:
+    restore()
+  c.check(err is None or isinstance(err, mio.MIDIConversionError),
+          'only MIDIConversionError escapes for a text string')
+  c.cover('text string rejected', err is not None)
+
+
+def _per_instrument(x, I):
+  return list(x) if isinstance(x, (tuple, list)) else [x] * I
 
 
 def h_object(c):
   mio = c.mod('midi_io')
   pmod = c.pm
-  I = c.params['I']
+  P = c.params
+  I = P['I']
+  NN = _per_instrument(P.get('N', 2), I)  # notes per instrument
+  TS, KS, TP = P.get('ts', 1), P.get('ks', 1), P.get('tp', 2)
+  slim = P.get('slim', False)
+  # how the parsed object reaches the converter: 'bytes' = through the parser
+  # stub, 'entries' = the same through any of the four public names, 'object'
+  # = a populated PrettyMIDI object handed over directly (documented input)
+  via = P.get('via', 'bytes')
+  as_object = via == 'object'
+  badkey = P.get('badkey', False)
   vals = {}
   # the header's division is a signed 16-bit field: negative for SMPTE timing
-  # (zero makes the parser fail with ZeroDivisionError, i.e. it raises)
+  # (zero makes the parser fail with ZeroDivisionError, i.e. it raises; a
+  # hand-built object can carry a zero)
   vals['res'] = c.int('res', -32768, 32767)
-  c.assume(c.Not(c.eq(vals['res'], 0)))
-  vals['ts_n'] = c.int('ts_n', 1, 255)
-  if c.params.get('full_k'):
-    vals['ts_k'] = c.concretize(c.int('ts_k', 0, 255))
-  else:
-    vals['ts_k'] = c.choice('ts_k', [0, 1, 2, 3, 7, 8, 30, 31, 32, 63, 64, 255])
-  vals['ts_t'] = c.real('ts_t', 0)
-  if c.params.get('full_k'):
-    vals['key'] = c.concretize(c.int('key', 0, 23))
-  else:
-    vals['key'] = c.choice('key', [0, 11, 12, 23])
-  vals['key_t'] = c.real('key_t', 0)
-  tempo_ticks = [c.int('tp%d_tick' % i, 0, 10**10 - 1) for i in range(2)]
+  if not as_object:
+    c.assume(c.Not(c.eq(vals['res'], 0)))
+  k_quick = [2, 30, 31, 64] if slim else [0, 1, 2, 3, 7, 8, 30, 31, 32, 63, 64,
+                                          255]
+  tsigs = []
+  for j in range(TS):
+    pre = 'ts' if j == 0 else 'ts%d' % j
+    n = c.int(pre + '_n', 1, 255)
+    if P.get('full_k') or P.get('all_k'):
+      k = c.concretize(c.int(pre + '_k', 0, 255))
+    else:
+      k = c.choice(pre + '_k', k_quick)
+    tsigs.append((n, k, c.real(pre + '_t', 0)))
+  keys = []
+  for j in range(KS):
+    pre = 'key' if j == 0 else 'key%d' % j
+    if badkey:
+      # outside what KeySignature's validator admits; only reachable on a
+      # hand-built object whose attribute was assigned afterwards
+      kn = c.int(pre, -128, 255)
+      c.assume(c.Or(kn < 0, kn > 23))
+    elif P.get('full_k') or P.get('all_keys'):
+      kn = c.concretize(c.int(pre, 0, 23))
+    else:
+      kn = c.choice(pre, [11, 12] if slim else [0, 11, 12, 23])
+    keys.append((kn, c.real(pre + '_t', 0)))
+  tempo_ticks = [c.int('tp%d_tick' % i, 0, 10**10 - 1) for i in range(TP)]
   # tempo-change times are tick * 60 / (qpm * resolution): the first is 0, a
   # later one is negative exactly when the resolution is (times of notes and
   # other events are checked >= 0 by the parser itself)
-  tempo_t = [0, c.real('tp1_t')]
-  c.assume(c.If(vals['res'] > 0, tempo_t[1] >= 0, tempo_t[1] <= 0))
-  tempo_q = [c.real('tp%d_q' % i) for i in range(2)]
+  tempo_t = [0] + [c.real('tp%d_t' % i) for i in range(1, TP)]
+  for t in tempo_t[1:]:
+    c.assume(c.If(vals['res'] > 0, t >= 0, t <= 0))
+  tempo_q = [c.real('tp%d_q' % i) for i in range(TP)]
   for q in tempo_q:
     c.assume(q > 0)
   insts = []
   for i in range(I):
     d = dict(program=c.int('i%d_g' % i, 0, 127),
              drum=c.concretize(c.bool('i%d_d' % i)), notes=[])
-    for j in range(2):
+    for j in range(NN[i]):
       s = c.real('i%dn%d_s' % (i, j), 0)
       e = c.real('i%dn%d_e' % (i, j))
       c.assume(e >= s)
       d['notes'].append((c.int('i%dn%d_v' % (i, j), 0, 127),
                          c.int('i%dn%d_p' % (i, j), 0, 127), s, e))
-    d['name'] = c.choice('i%d_name' % i, ['trk', '', 'Fl\xf6te', 'Fl\xc3\xb6te'])
+    d['name'] = c.choice('i%d_name' % i,
+                         ['', 'Fl\xf6te%d' % i] if slim else
+                         ['trk', '', 'Fl\xf6te', 'Fl\xc3\xb6te'])
     d['bend'] = (c.int('i%db' % i, -8192, 8191), c.real('i%db_t' % i, 0))
     d['cc'] = (c.int('i%dc_n' % i, 0, 127), c.int('i%dc_v' % i, 0, 127),
                c.real('i%dc_t' % i, 0))
     insts.append(d)
+  seen = []
 
-  def plan(self):
+  def plan(self, f):
+    if f is not None:
+      seen.append(_drain(f))
     self.resolution = vals['res']
-    self.time_signature_changes = [pmod.containers.TimeSignature(
-        vals['ts_n'] if c.mode == 'sym' else int(vals['ts_n']),
-        2**vals['ts_k'], vals['ts_t'])]
-    self.key_signature_changes = [pmod.containers.KeySignature(vals['key'],
-                                                               vals['key_t'])]
+    self.time_signature_changes = [
+        pmod.containers.TimeSignature(n if c.mode == 'sym' else int(n), 2**k, t)
+        for (n, k, t) in tsigs]
+    self.key_signature_changes = []
+    for (kn, t) in keys:
+      if badkey:
+        ks = pmod.containers.KeySignature(0, t)
+        ks.key_number = kn
+      else:
+        ks = pmod.containers.KeySignature(kn, t)
+      self.key_signature_changes.append(ks)
     self.instruments = []
     for d in insts:
       # track names come out of the parser decoded as latin-1: ASCII, empty and
@@ -221,6 +363,9 @@ def h_object(c):
       for tk in tempo_ticks:
         if tk >= limit:
           raise IndexError('Supplied tick is too large.')
+      # ... and then computes 60.0 / (tick_scale * resolution)
+      if vals['res'] == 0:
+        raise ZeroDivisionError('float division by zero')
 
     if c.mode == 'sym':
       def gtc():
@@ -234,27 +379,57 @@ def h_object(c):
         return np.array(tempo_t), np.array(tempo_q)
     self.get_tempo_changes = gtc
 
+  if via == 'entries':
+    entry = c.choice('entry', _ENTRIES)
+  else:
+    entry = _ENTRIES[0]
+  if P.get('prior_fail'):
+    # an undecodable file first: the conversion that follows must not be
+    # affected by it
+    def bad_plan(self, f):
+      raise ValueError('bad header')
+
+    restore = _install(c, mio, bad_plan)
+    try:
+      _, err0 = _guarded(c, mio, entry, _RAW)
+    finally:
+      restore()
+    c.check(err0 is not None and isinstance(err0, mio.MIDIConversionError),
+            'a failing parser surfaces as MIDIConversionError and nothing else')
   restore = _install(c, mio, plan)
   try:
-    try:
-      res, err = mio.midi_to_note_sequence(_data(c)), None
-    except BaseException as e:  # pylint: disable=broad-except
-      if type(e).__module__.startswith('engine'):
-        raise
-      res, err = None, e
+    if as_object:
+      data = mio.pretty_midi.PrettyMIDI()
+      plan(data, None)
+    else:
+      data = _data(c, slim or via == 'entries')
+    res, err = _guarded(c, mio, entry, data)
   finally:
     restore()
-  too_big = 2**vals['ts_k'] > 2**31 - 1
+  if not as_object:
+    c.check(len(seen) == 1 and bytes(seen[0]) == _RAW,
+            'the parser is handed the complete file contents')
+  too_big = any(2**k > 2**31 - 1 for (_, k, _) in tsigs)
   smpte = c.concretize(vals['res'] < 0)
+  zero_res = as_object and c.concretize(c.eq(vals['res'], 0))
   if err is not None:
     c.check(isinstance(err, mio.MIDIConversionError),
             'only MIDIConversionError escapes')
-    c.check(too_big or smpte, 'raised although every field fits the '
-                              'NoteSequence and the division is metrical')
+    c.check(too_big or smpte or zero_res or (badkey and KS > 0),
+            'raised although every field fits the '
+            'NoteSequence and the division is metrical')
     c.cover('denominator beyond int32 rejected', too_big)
     c.cover('SMPTE division rejected', smpte)
+    if as_object and not badkey:
+      c.cover('zero division rejected', zero_res)
+    if badkey:
+      c.cover('improper key mode rejected',
+              not (too_big or smpte or zero_res))
     return
+  c.check(isinstance(res, c.pb.NoteSequence), 'returns a NoteSequence')
   c.check(not too_big, 'a denominator beyond int32 was accepted')
+  if badkey and KS > 0:
+    c.check(False, 'an improper MIDI mode was accepted')
   conds = []
   for n in res.notes:
     conds.append(c.And(n.start_time >= 0, n.start_time <= n.end_time,
@@ -264,12 +439,66 @@ def h_object(c):
                'control_changes'):
     for e in getattr(res, name):
       conds.append(e.time >= 0)
-  c.check(len(res.notes) == 2 * I, 'every note converted')
+  c.check(len(res.notes) == sum(NN), 'every note converted')
   c.check(c.And(conds), 'returned sequence is well-formed')
   c.cover('accepted')
+  # ---- "Convert MIDI file contents to a NoteSequence": one entry per parsed
+  # event, carrying the parsed values (storage order is not prescribed)
+  pb = c.pb
+  c.check(len(res.time_signatures) == TS and len(res.key_signatures) == KS and
+          len(res.tempos) == TP and len(res.pitch_bends) == I and
+          len(res.control_changes) == I,
+          'one entry per parsed event')
+  exp = []
+  ends = []
+  for i, d in enumerate(insts):
+    for (v, p, s, e) in d['notes']:
+      exp.append((True, (p, v, s, e, i, d['program'], d['drum'])))
+      ends.append(e)
+  got = [(n.pitch, n.velocity, n.start_time, n.end_time, n.instrument,
+          n.program, n.is_drum) for n in res.notes]
+  c.check(K.multiset_eq(c, got, exp), 'notes carry the parsed values')
+  # "set the sequence.total_time as the max end time in the notes"
+  c.check(c.eq(res.total_time, c.Max(ends) if ends else 0),
+          'total_time is the latest note end')
+  c.check(K.multiset_eq(
+      c, [(b.time, b.bend, b.instrument, b.program, b.is_drum)
+          for b in res.pitch_bends],
+      [(True, (d['bend'][1], d['bend'][0], i, d['program'], d['drum']))
+       for i, d in enumerate(insts)]) and K.multiset_eq(
+           c, [(x.time, x.control_number, x.control_value, x.instrument,
+                x.program, x.is_drum) for x in res.control_changes],
+           [(True, (d['cc'][2], d['cc'][0], d['cc'][1], i, d['program'],
+                    d['drum'])) for i, d in enumerate(insts)]),
+          'bends and control changes carry the parsed values')
+  SI = pb.NoteSequence.SourceInfo
+  c.check(c.And(c.eq(res.ticks_per_quarter, vals['res']),
+                c.eq(res.source_info.parser, SI.PRETTY_MIDI),
+                c.eq(res.source_info.encoding_type, SI.MIDI)),
+          'header: resolution and provenance')
+  KSig = pb.NoteSequence.KeySignature
+  # pretty_midi: key numbers 0..11 are major, 12..23 minor, tonic = number % 12
+  c.check(c.And(
+      K.multiset_eq(c, [(x.time, x.numerator, x.denominator)
+                        for x in res.time_signatures],
+                    [(True, (t, n, 2**k)) for (n, k, t) in tsigs]),
+      K.multiset_eq(c, [(x.time, x.key, x.mode) for x in res.key_signatures],
+                    [(True, (t, kn if kn < 12 else kn - 12,
+                             KSig.MAJOR if kn < 12 else KSig.MINOR))
+                     for (kn, t) in keys]),
+      K.multiset_eq(c, [(x.time, x.qpm) for x in res.tempos],
+                    [(True, (tempo_t[i], tempo_q[i])) for i in range(TP)])),
+          'time signatures, keys and tempos carry the parsed values')
+  # "Populate instrument name from the midi's instruments"
+  infos = [(x.instrument, x.name) for x in res.instrument_infos]
+  named = [(i, d['name']) for i, d in enumerate(insts)]
+  c.check(all(sum(1 for x in infos if x == nm) == 1
+              for nm in named if nm[1]) and
+          all(x in named for x in infos),
+          'instrument names are attached to their instruments')
 
 
-HARNESSES = {'h_raises': h_raises, 'h_object': h_object}
+HARNESSES = {'h_raises': h_raises, 'h_object': h_object, 'h_text': h_text}
 
 
 def jobs(tier):
@@ -281,7 +510,29 @@ def jobs(tier):
 
   for name in _EXCS:
     add('h_raises', exc=name)
+  add('h_text')
   add('h_object', I=1)
+  # the populated-object input (resolution 0 included)
+  add('h_object', I=1, via='object')
+  add('h_object', I=1, via='object', badkey=True, slim=True)
+  # file variants and renamed aliases
+  add('h_object', I=1, via='entries', slim=True)
+  # other shapes of the parsed file: empty, note-less track, several
+  # signatures / tempos, two tracks of different lengths
+  add('h_object', I=0, ts=0, ks=0, tp=1)
+  add('h_object', I=1, N=0, ks=0, tp=1, slim=True)
+  add('h_object', I=1, N=3, ts=2, ks=2, tp=3, slim=True)
+  add('h_object', I=2, N=(1, 2), slim=True)
+  add('h_object', I=2, N=(2, 0), tp=1, slim=True)
+  # every key number / every denominator exponent, on otherwise small files
+  add('h_object', I=1, N=1, all_keys=True, slim=True)
+  add('h_object', I=0, ks=0, tp=1, all_k=True)
+  # a good file after an undecodable one
+  add('h_object', I=1, prior_fail=True, slim=True)
+  # FINDING-CANDIDATE (docstring level, not a byte string, so not a job):
+  # midi_file_to_note_sequence('/nonexistent/x.mid') raises FileNotFoundError
+  # (a directory: IsADirectoryError) although its docstring lists
+  # "MIDIConversionError: Invalid midi_file"; open() sits outside any guard.
   if tier == 'thorough':
     add('h_object', I=1, full_k=True, budget=3000)
     add('h_object', I=2, budget=3000)
